@@ -104,9 +104,9 @@ func c18(args []string) {
 	for _, n := range []int{1, 2, 3, 8, 20} {
 		q := circularQueue.NewCircularQueue(n)
 		emitQ(w, qEv{Ev: "new", N: n})
-		total := 20000
+		total := 70000 // beyond 2^16 additions
 		if thorough {
-			total = 100000
+			total = 140000 // beyond 2^17
 		}
 		id := 0
 		for id < total {
@@ -119,6 +119,22 @@ func c18(args []string) {
 			emitQ(w, qEv{Ev: "addn", From: from, To: id, Len: len(q.Items)})
 			r := q.GetMessages()
 			emitQ(w, qEv{Ev: "get", Res: ids(r), Len: len(r)})
+		}
+	}
+	// 2b. queues that have already seen very many additions (the exported index starts near a power of two)
+	for _, start := range []int{1<<16 - 3, 1<<15 - 2, 1<<31 - 3, 1<<32 - 3} {
+		for _, n := range []int{1, 2, 3, 8} {
+			q := circularQueue.NewCircularQueue(n)
+			q.NextIndex = start
+			emitQ(w, qEv{Ev: "new", N: n})
+			id := 0
+			for step := 0; step < 14; step++ {
+				id++
+				q.Add(qmsg(id))
+				emitQ(w, qEv{Ev: "add", ID: id, Len: len(q.Items)})
+				r := q.GetMessages()
+				emitQ(w, qEv{Ev: "get", Res: ids(r), Len: len(r)})
+			}
 		}
 	}
 	// 3. concurrent adders and snapshot readers (race detector on in the check)
